@@ -45,6 +45,10 @@ Diff(a, b) ==
             ELSE "subroutine-progress"
   ELSE ""
 
+ClearedOK(ev, u0, u1) ==
+  LET c == ev.cleared IN
+  /\ { c[i] : i \in DOMAIN c } = u0 \ u1
+  /\ \A i, j \in DOMAIN c : i # j => c[i] # c[j]
 TInit == Init /\ id \in DOMAIN Traces /\ k = 0 /\ verdict = "running"
 Act(ev) == CASE ev.a = "init"    -> InitApp(ev.app, ev.n)
              [] ev.a = "stop"    -> StopApp(ev.app)
@@ -57,7 +61,9 @@ Act(ev) == CASE ev.a = "init"    -> InitApp(ev.app, ev.n)
 TNext == /\ verdict = "running" /\ k < Len(Tr)
          /\ k' = k + 1 /\ UNCHANGED id
          /\ IF Tr[k + 1].err # "" THEN UNCHANGED vars /\ verdict' = "raised:" \o Tr[k + 1].a
-            ELSE \/ ENABLED Act(Tr[k + 1]) /\ Act(Tr[k + 1]) /\ verdict' = "check"
+            ELSE \/ /\ ENABLED Act(Tr[k + 1]) /\ Act(Tr[k + 1])
+                    \* the backend is asked to reset exactly the physical qubits this operation gives back, each once
+                    /\ verdict' = IF ClearedOK(Tr[k + 1], used, used') THEN "check" ELSE "resets-other-physical-qubits-than-released"
                  \/ ~ENABLED Act(Tr[k + 1]) /\ UNCHANGED vars /\ verdict' = "not-enabled:" \o Tr[k + 1].a
 TCheck == /\ verdict = "check" /\ UNCHANGED <<vars, id, k>>
           /\ verdict' = LET d == Diff(Proj, Logged(Tr[k].post)) IN
